@@ -955,20 +955,28 @@ pub fn apply_ex(orig: &WPacket, site: &Site, t: &mut Tape, out_w: &mut Option<WP
             if payload.len() + bad.len() > 65_000 {
                 return None;
             }
-            let at = match t.pick(3) {
+            // where: the front, the end, the middle, or (long payloads) just before / at a power-of-two offset, which is
+            // where a validator that works block by block changes blocks. Always on a character boundary of the valid
+            // payload, so that a truncated sequence is followed by a lead byte or the end and stays ill-formed.
+            let want = match t.pick(if payload.len() > 300 { 6 } else { 3 }) {
                 0 => 0,
                 1 => payload.len(),
+                2 => payload.len() / 2,
                 _ => {
-                    // a character boundary in the middle (the payload is valid UTF-8 so far)
-                    let mut k = payload.len() / 2;
-                    while k > 0 && (payload[k] & 0xC0) == 0x80 {
-                        k -= 1;
+                    let mut pw = 256usize;
+                    let mut cands: Vec<usize> = Vec::new();
+                    while pw <= payload.len() {
+                        cands.push(pw);
+                        pw *= 2;
                     }
-                    k
+                    let c = cands[t.pick(cands.len())];
+                    c.saturating_sub(t.pick(4)).min(payload.len())
                 }
             };
-            // a truncated sequence only stays ill-formed where no continuation byte follows it
-            let at = if matches!(bad[0], 0xC3 | 0xE2 | 0xF0) { payload.len() } else { at };
+            let mut at = want.min(payload.len());
+            while at > 0 && at < payload.len() && (payload[at] & 0xC0) == 0x80 {
+                at -= 1;
+            }
             for (i, b) in bad.iter().enumerate() {
                 payload.insert(at + i, *b);
             }
